@@ -15,14 +15,14 @@ ID = 'C17'
 TITLE = 'containers consistent under any operation history'
 RULE = ('random plain tree, then 1-25 operations on interpretively addressed containers: item/attribute set and delete, update, setdefault, '
         'pop, clear, ayns.set_child/remove_child/rename_child on mappings; item set/delete, append, insert, extend, remove, pop, clear, '
-        'ayns.set_child/remove_child on lists (out-of-range set_child as a consistency-only step); indices in range, negative and out of range; keys existing, new, underscore; values scalars and '
+        'ayns.set_child/remove_child on lists (out-of-range set_child as a consistency-only step); indices in range, negative and out of range; keys existing, new, underscore, negative integers; values scalars and '
         'nested containers; non-trivial = an insert/pop/rename after >=1 other mutation of the same container; distinct = hash of the case')
 BUDGET = {'quick': (4, 500), 'thorough': (16, 8000)}
 ASSUMPTIONS = ['rename_child is generated for mappings only; ayns.set_child on lists only with -len <= i <= len',
                'attribute assignment only for non-underscore identifier keys (underscore names are python attributes by design)',
                'values are plain data (no pre-built nodes shared between two places)']
 
-KEYS = ['a', 'b', 'c', 'k1', '_u', '_v', 0, 1, 2]
+KEYS = ['a', 'b', 'c', 'k1', '_u', '_v', 0, 1, 2, -1, -2]
 ATTR_KEYS = ['a', 'b', 'c', 'k1']
 LEAF = st.one_of(st.integers(0, 9), st.sampled_from(['s', 't', '', 1.5, True, None]))
 VALUE = st.recursive(LEAF, lambda ch: st.one_of(st.lists(ch, max_size=3), st.dictionaries(st.sampled_from(KEYS), ch, max_size=3)), max_leaves=5)
